@@ -7,7 +7,12 @@ use std::fmt::Write as _;
 pub struct Rng(pub u64);
 impl Rng {
     pub fn new(seed: u64) -> Self {
-        Rng(seed.wrapping_mul(0x9E3779B97F4A7C15).wrapping_add(0x1234_5678_9ABC_DEF1))
+        // the seed goes through the splitmix64 finaliser: consecutive seeds must not give shifted
+        // copies of one stream (state(seed+1) = state(seed) + increment would do exactly that)
+        let mut z = seed.wrapping_add(0x1234_5678_9ABC_DEF1);
+        z = (z ^ (z >> 30)).wrapping_mul(0xBF58476D1CE4E5B9);
+        z = (z ^ (z >> 27)).wrapping_mul(0x94D049BB133111EB);
+        Rng(z ^ (z >> 31))
     }
     pub fn next(&mut self) -> u64 {
         self.0 = self.0.wrapping_add(0x9E3779B97F4A7C15);
